@@ -27,7 +27,7 @@ theorem reflection_geometric (jde : ℝ) (tofk5 : Bool) (lon lat r : ℝ)
     ∃ ls : ℝ, sun_geometric_geocentric_position jde tofk5 = .ok (ls, -lat, r) ∧ 0 ≤ ls ∧ ls < 360 ∧
       ∃ k : ℤ, ls = lon + 180 + 360 * k := by
   have hr := geometric_range jde _ _ _ tofk5 lon lat r h
-  obtain ⟨ls, e, h0, h1, hk⟩ := reflect_eq lon lat r (abs_lt.mpr ⟨hr.1, hr.2.1⟩) (abs_lt.mpr ⟨hr.2.2.1, hr.2.2.2⟩)
+  obtain ⟨ls, e, h0, h1, hk⟩ := reflect_eq lon lat r (abs_lt.mpr ⟨by linarith [hr.1], hr.2.1⟩) (abs_lt.mpr ⟨hr.2.2.1, hr.2.2.2⟩)
   exact ⟨ls, by simp [sun_geometric_geocentric_position, h, e], h0, h1, hk⟩
 
 /-- "… and apparent form" -/
@@ -36,7 +36,7 @@ theorem reflection_apparent (jde : ℝ) (nutation : Bool) (lon lat r : ℝ)
     ∃ ls : ℝ, sun_apparent_geocentric_position jde nutation = .ok (ls, -lat, r) ∧ 0 ≤ ls ∧ ls < 360 ∧
       ∃ k : ℤ, ls = lon + 180 + 360 * k := by
   have hr := apparent_range jde _ _ _ nutation lon lat r h
-  obtain ⟨ls, e, h0, h1, hk⟩ := reflect_eq lon lat r (abs_lt.mpr ⟨hr.1, hr.2.1⟩) (abs_lt.mpr ⟨hr.2.2.1, hr.2.2.2⟩)
+  obtain ⟨ls, e, h0, h1, hk⟩ := reflect_eq lon lat r (abs_lt.mpr ⟨by linarith [hr.1], hr.2.1⟩) (abs_lt.mpr ⟨hr.2.2.1, hr.2.2.2⟩)
   exact ⟨ls, by simp [sun_apparent_geocentric_position, h, e], h0, h1, hk⟩
 
 /-- The Sun's positions are defined whenever the Earth's are, and fail the same way otherwise. -/
